@@ -141,8 +141,6 @@ func checkC20(c *Ctx) {
 	c20GPS(c, spec.Leap, spec.HMS)
 }
 
-
-
 // countedLoopRange recognises i := a; i < b | i <= b | i > b | i >= b; i++ | i-- with constant or len(table)±k bounds.
 func countedLoopRange(info *types.Info, x *ast.ForStmt, table types.Object, n int) (lo, hi int, ok bool) {
 	val := func(e ast.Expr) (int, bool) {
